@@ -4,6 +4,7 @@ package server
 // network, inside a synctest bubble.  Shared by every family.
 
 import (
+	"strconv"
 	"sync/atomic"
 	"log/slog"
 	"context"
@@ -380,6 +381,10 @@ func runScriptOnce(t *testing.T, sc *Script, dump bool) (*RunResult, string) {
 			defer func() { net.SimDialHook = nil; net.SimListenPacketHook = nil }()
 			runtime.SimEnable(sc.SchedSeed, sc.YieldN, sc.SelShuffle)
 			runtime.SimTrace(os.Getenv("VSIM_TRACE") != "")
+			if v := os.Getenv("VSIM_STACK_AT"); v != "" {
+				n, _ := strconv.ParseUint(v, 10, 64)
+				runtime.SimStackAt(n)
+			}
 			defer runtime.SimDisable()
 			w.start = time.Now()
 			w.run(impl)
